@@ -25,6 +25,13 @@ def run(ctx, res):
         if s.kind.startswith("assert:Overflow") and s.detail in ("i64", "i32", "isize", "i128"):
             n += 1
     res.ok("INT-ARITH", "signed-integer overflow asserts reachable from eval=%d (each is a PANIC-INV site above)" % n)
+    if ctx.tier == "thorough":
+        from .. import loops as LP
+        LP.run(ctx, res, reach)
+        stale = PI.stale_rows(ctx, LAYERS)
+        for k in stale[:40]:
+            res.note("stale residue row (matches no site in this layer): %s" % k)
+        res.extra.setdefault("thorough", {})["stale_residue_rows_in_layer"] = len(stale)
     res.explanation = (
         "Decides the no-panic reading of C02: the universe is every panic-capable MIR operation in the %d functions "
         "reachable from eval::eval. Sites are discharged by dominance/dataflow rules (D-ARITY for built-in argument "
